@@ -1,7 +1,7 @@
 (* Lemmas for C04: code area, memory layout and pixel rows of the .p8.png codec (Model/P8Png.v, Model/PngStego.v). *)
 From Coq Require Import ZArith List Bool Lia ZifyBool.
-From PV Require Import Base.Prelude Base.ListX Base.PySlice Spec.PxcFormat Generated.K_compress Generated.K_p8png
-  Generated.K_p8png_codec Model.Compress Model.HexSection Model.Gfx Model.Gff Model.PngStego Model.P8Png Proofs.CompressProofs.
+From PV Require Import Base.Prelude Base.ListX Base.PySlice Spec.PxcFormat Spec.P8PngSpec Generated.K_compress Generated.K_p8png
+  Generated.K_p8png_codec Model.Compress Model.HexSection Model.Gfx Model.Gff Model.PngStego Model.P8Png Instances.HoldsC04 Proofs.CompressProofs.
 Ltac Zify.zify_post_hook ::= Z.to_euclidean_division_equations.
 
 
@@ -674,4 +674,159 @@ Proof.
   - eexists. split; [vm_compute; reflexivity|]. left. vm_compute. discriminate.
   - repeat constructor; discriminate.
   - vm_compute. reflexivity.
+Qed.
+
+(* ------------------------------------------------------------------ the instance predicates hold of the model *)
+(* the format's reading of a pixel (Spec/P8PngSpec.v, arithmetic) is the code's (kernels, bit operations) *)
+Definition px_fields_ok (t : Z) : bool :=
+  let a := t / 64 in let r := (t / 16) mod 4 in let g := (t / 4) mod 4 in let b := t mod 4 in
+  Z.lor (Z.lor (Z.lor (Z.lor 0 (Z.shiftl b (0 * 2))) (Z.shiftl g (1 * 2))) (Z.shiftl r (2 * 2))) (Z.shiftl a (3 * 2))
+  =? a * 64 + r * 16 + g * 4 + b.
+Lemma px_fields_ok_all : forallb px_fields_ok (upto 256) = true.
+Proof. vm_compute. reflexivity. Qed.
+
+Lemma land3 v : Z.land v 3 = v mod 4.
+Proof. change 3 with (Z.ones 2). rewrite Z.land_ones by lia. reflexivity. Qed.
+
+Lemma px_byte_unpack4 r g b a : px_byte r g b a = unpack4 r g b a.
+Proof.
+  unfold px_byte, unpack4, pd_val_0, pd_val_1, pd_val_2, pd_val_3. cbn [Z.mul Z.add Z.eqb Pos.eqb].
+  rewrite !land3.
+  set (t := (a mod 4) * 64 + (r mod 4) * 16 + (g mod 4) * 4 + b mod 4).
+  assert (Ht : 0 <= t < 256) by (unfold t; lia).
+  assert (E := sweep_upto _ 256 px_fields_ok_all t Ht). unfold px_fields_ok in E. cbv zeta in E.
+  replace (t / 64) with (a mod 4) in E by (unfold t; lia).
+  replace ((t / 16) mod 4) with (r mod 4) in E by (unfold t; lia).
+  replace ((t / 4) mod 4) with (g mod 4) in E by (unfold t; lia).
+  replace (t mod 4) with (b mod 4) in E by (unfold t; lia).
+  apply Z.eqb_eq in E. symmetry. exact E.
+Qed.
+
+Lemma row_bytes_unpack row : row_bytes row = unpack_row row.
+Proof.
+  assert (H : forall n row, (length row <= n)%nat -> row_bytes row = unpack_row row).
+  { induction n as [|n IH]; intros l Hl.
+    - destruct l; [reflexivity|cbn in Hl; lia].
+    - destruct l as [|r [|g [|b [|a rest]]]]; try reflexivity.
+      cbn [row_bytes unpack_row]. rewrite px_byte_unpack4. f_equal. apply IH. cbn in Hl. lia. }
+  apply (H (length row)). lia.
+Qed.
+
+Lemma rom_unpack rows : rom_of_rows rows = concat (map unpack_row rows).
+Proof.
+  unfold rom_of_rows. rewrite flat_map_concat_map. f_equal. apply map_ext. apply row_bytes_unpack.
+Qed.
+
+Lemma rows_eqb_refl rows : rows_eqb rows rows = true.
+Proof.
+  induction rows as [|x r IH]; [reflexivity|]. cbn. rewrite IH, andb_true_r. apply zlist_eqb_eq. reflexivity.
+Qed.
+
+Lemma zlist_eqb_refl l : zlist_eqb l l = true.
+Proof. apply zlist_eqb_eq. reflexivity. Qed.
+
+Lemma shape_ok_wf rows : wf_img rows -> shape_ok rows = true.
+Proof.
+  intros (Hn & Hr). unfold shape_ok, img_height, img_width.
+  assert (E : (zlen rows =? 205) = true) by (unfold zlen; lia). rewrite E. cbn [andb].
+  apply forallb_forall. intros row Hin. unfold wf_rows in Hr. rewrite Forall_forall in Hr.
+  destruct (Hr row Hin) as (Hl & Hb). apply andb_true_iff. split; [unfold zlen; lia|apply all_bytes_Forall; exact Hb].
+Qed.
+
+Lemma sub_py_slice (l : list Z) lo hi : 0 <= lo <= hi -> hi <= zlen l -> sub l lo hi = py_slice l lo hi.
+Proof. intros H1 H2. unfold sub. rewrite py_slice_inrange by assumption. reflexivity. Qed.
+
+Lemma until_nul_zeros n : until_nul (repeat 0 n) = [].
+Proof. destruct n; reflexivity. Qed.
+
+Lemma until_nul_text text n : no_nul text -> until_nul (text ++ repeat 0 n) = text.
+Proof.
+  induction 1 as [|c t Hc Ht IH]; cbn [app until_nul]; [apply until_nul_zeros|].
+  assert (E : (c =? 0) = false) by lia. rewrite E, IH. reflexivity.
+Qed.
+
+Lemma area_text_model text : Forall byte text -> fits text -> no_nul text -> text <> [58; 99; 58] ->
+  exists area, get_bytes_from_code text = Ok area /\ area_text area = Some text.
+Proof.
+  intros Hb Hf Hn Hm. destruct (gbc_fits text Hb Hf) as (comp & Ec & Ea & Hc1 & Hc2).
+  eexists. split; [exact Ea|]. pose proof (zlen_nonneg text) as H0.
+  destruct (is_compressed text) eqn:E.
+  - destruct (Hc1 eq_refl) as [Hl Hfit].
+    destruct (compress_code_correct text Hb) as (s & sfx & Es & _ & _ & _ & Hd). rewrite Ec in Es. injection Es as <-.
+    unfold area_text, decode_area. cbn [starts_with pxc_magic app unBS Z.eqb Pos.eqb andb skipn].
+    change (starts_with [] _) with true. cbn [andb].
+    replace (zlen text / 256 * 256 + zlen text mod 256) with (zlen text) by lia.
+    rewrite Hd. reflexivity.
+  - pose proof (Hc2 eq_refl) as Hl. unfold area_text, decode_area.
+    assert (Es : starts_with pxc_magic (text ++ repeat 0 (Z.to_nat (15616 - zlen text))) = false).
+    { destruct (starts_with _ _) eqn:Es; [|reflexivity]. exfalso.
+      apply starts_with_app in Es. destruct Es as (r & Er). unfold pxc_magic in Er. cbn [app unBS] in Er.
+      destruct text as [|a [|b [|c [|d t]]]]; cbn in Er.
+      - destruct (Z.to_nat _); discriminate.
+      - injection Er as -> Er. destruct (Z.to_nat _); discriminate.
+      - injection Er as -> -> Er. destruct (Z.to_nat _); discriminate.
+      - injection Er as -> -> -> _. apply Hm. reflexivity.
+      - injection Er as -> -> -> -> _. unfold no_nul in Hn. rewrite Forall_forall in Hn.
+        apply (Hn 0); [right; right; right; left; reflexivity|reflexivity]. }
+    rewrite Es. rewrite until_nul_text by exact Hn. reflexivity.
+Qed.
+
+Lemma py_get_inv {A} (l : list A) i v : 0 <= i -> py_get l i = Ok v -> nth_error l (Z.to_nat i) = Some v.
+Proof.
+  intros Hi H. unfold py_get in H. assert (E : (i <? 0) = false) by lia. rewrite E in H.
+  destruct ((i <? 0) || (zlen l <=? i)); [discriminate|].
+  destruct (nth_error l (Z.to_nat i)); [congruence|discriminate].
+Qed.
+
+Lemma holds_model c img :
+  wf_cart c -> cart_bytes c -> wf_img img ->
+  fits (c_code c) -> no_nul (c_code c) -> clean (c_code c) = true -> c_code c <> [58; 99; 58] ->
+  exists rows c', write_png_pixels c 4 img = Ok rows /\ read_png_pixels 160 205 4 rows = Ok c' /\
+    holds_C04_image (c_gfx c) (c_map c) (c_gff c) (c_music c) (c_sfx c) (c_code c) (c_version c) img rows = true /\
+    holds_C04_readback (c_gfx c) (c_map c) (c_gff c) (c_music c) (c_sfx c) (c_code c) (c_version c)
+                       (c_gfx c') (c_map c') (c_gff c') (c_music c') (c_sfx c') (c_code c') (c_version c') = true.
+Proof.
+  intros Hwf Hcb Himg Hf Hnn Hc Hm.
+  destruct (cart_roundtrip c img Hwf Hcb Himg Hf Hnn Hc Hm) as (rows & Ew & Hwr & Hu & Er).
+  eexists rows, _. split; [exact Ew|]. split; [exact Er|]. split.
+  - (* the image *)
+    destruct Hcb as (B1 & B2 & B3 & B4 & B5 & B6).
+    destruct (area_text_model (c_code c) B6 Hf Hnn Hm) as (area & Ea & Hat).
+    destruct (code_area (c_code c) (c_version c) B6 Hf Hnn Hc Hm) as (area' & cl & cs & Ea' & Hal & Hab & _).
+    rewrite Ea in Ea'. injection Ea' as <-.
+    destruct (layout c area [] Hwf Hal) as (pd & Ej & Hpl & _).
+    assert (Hpb : Forall byte pd).
+    { unfold join_mem, bytes_of_ints in Ej. destruct Hwf as (_ & _ & _ & _ & _ & Hv).
+      assert (Eb : all_bytes [c_version c] = true) by (apply all_bytes_Forall; constructor; [exact Hv|constructor]).
+      rewrite Eb in Ej. cbn [bind] in Ej. injection Ej as <-.
+      unfold png_join_order. cbn [map concat section_by_id Z.eqb Pos.eqb]. rewrite app_nil_r.
+      repeat (apply Forall_app; split); try assumption. constructor; [exact Hv|constructor]. }
+    destruct Himg as (Hn & Hrows).
+    destruct (pack_rows_props 160 img pd Hrows Hpb) as ((extra & P1) & _ & _ & _).
+    { rewrite Hn. unfold zlen in Hpl. lia. }
+    assert (Erows : rows = pack_rows 160 img pd).
+    { unfold write_png_pixels in Ew. rewrite Ea in Ew. cbn [bind] in Ew. rewrite Ej in Ew. cbn [bind] in Ew.
+      rewrite rows_fast_eq in Ew. rewrite (rows_of_picodata_spec pd 160 img Hpb Hrows) in Ew. congruence. }
+    destruct (layout c area extra Hwf Hal) as (pd' & Ej' & _ & Es). rewrite Ej in Ej'. injection Ej' as <-.
+    unfold holds_C04_image. rewrite (shape_ok_wf rows Hwr).
+    change (label_of rows) with (upper6 rows). change (label_of img) with (upper6 img). rewrite Hu, rows_eqb_refl.
+    cbn [andb]. rewrite rom_unpack, Erows, P1.
+    assert (Hlen : zlen (pd ++ extra) >= 32769) by (rewrite zlen_app; pose proof (zlen_nonneg extra); lia).
+    unfold split_mem in Es.
+    destruct (py_get (pd ++ extra) raw_version_idx) as [v|] eqn:Ev; [|discriminate]. cbn [bind] in Es.
+    injection Es as S1 S2 S3 S4 S5 S6 S7.
+    unfold fields_of_rom. cbn [f_gfx f_map f_gff f_music f_sfx f_code_area f_version].
+    unfold raw_gfx_lo, raw_gfx_hi, raw_p8map_lo, raw_p8map_hi, raw_gfx_props_lo, raw_gfx_props_hi,
+      raw_song_lo, raw_song_hi, raw_sfx_lo, raw_sfx_hi, raw_codedata_lo, raw_codedata_hi in *.
+    rewrite !sub_py_slice by lia. rewrite S1, S2, S3, S4, S5, S6, !zlist_eqb_refl. cbn [andb].
+    assert (Env : nth_error (pd ++ extra) (Z.to_nat 32768) = Some (c_version c)).
+    { rewrite <- S7. apply py_get_inv; [lia|exact Ev]. }
+    rewrite Env, Z.eqb_refl, Hat, zlist_eqb_refl. reflexivity.
+  - (* the cart read back *)
+    cbn [c_gfx c_map c_gff c_music c_sfx c_code c_version]. unfold holds_C04_readback.
+    rewrite !zlist_eqb_refl, Z.eqb_refl. cbn [andb]. unfold code_equiv, norm_code.
+    change cr_to_space with cr2sp.
+    destruct (is_compressed (c_code c)).
+    + rewrite zlist_eqb_refl, !orb_true_r. reflexivity.
+    + unfold cr2sp. rewrite map_app. cbn [map Z.eqb Pos.eqb]. rewrite zlist_eqb_refl, !orb_true_r. reflexivity.
 Qed.
